@@ -196,82 +196,45 @@ end
 theorem sameDs_skel {d d' : Dataset} (h : SameDs d d') : skelDs d' = skelDs d := by
   simp only [skelDs, h.1, sameL_skel h.2]
 
-/-! ### foreign texts: when the declared structure is one of the property's trees (dimension names for all extents or none) -/
+/-! ### foreign texts: the declared structure is always one of the property's trees
 
-/-- a foreign declaration names all of its dimensions or none (`Int32 a[x = 2][y = 3]`, `Int32 a[2][3]`; not
-    `Int32 a[x = 2][3]`, for which pydap keeps the names `('x',)` and no longer knows which axis they name) -/
-def FUniformB (b : FBase) : Prop := (∀ e ∈ b.dims, e.1 = none) ∨ (∀ e ∈ b.dims, e.1 ≠ none)
+Since the repair of the parser (a declaration naming only some of its dimensions keeps its shape and gets no dimension
+names, `fitDims`) the structure a foreign text declares has, for every variable, dimension names for all extents or none. -/
 
-mutual
-def FUniformT : FTmpl → Prop
-  | .base b => FUniformB b
-  | .cont _ _ _ _ kids => FUniformL kids
-  | .grid _ _ _ _ _ arr maps => FUniformB arr ∧ ∀ b ∈ maps, FUniformB b
-def FUniformL : List FTmpl → Prop
-  | [] => True
-  | t :: ts => FUniformT t ∧ FUniformL ts
-end
-
-def FUniformDs (d : FDataset) : Prop := FUniformL d.kids
-
-theorem filterMap_fst_none (l : List (Option Text × Int)) (h : ∀ e ∈ l, e.1 = none) : l.filterMap (·.1) = [] := by
-  induction l with
-  | nil => rfl
-  | cons e es ih =>
-    have he := h e (by simp)
-    simp only [List.filterMap_cons, he]
-    exact ih fun x hx => h x (by simp [hx])
-
-theorem filterMap_fst_some (l : List (Option Text × Int)) (h : ∀ e ∈ l, e.1 ≠ none) :
-    (l.filterMap (·.1)).length = l.length := by
-  induction l with
-  | nil => rfl
-  | cons e es ih =>
-    have he := h e (by simp)
-    obtain ⟨nm, n⟩ := e
-    cases nm with
-    | none => exact absurd rfl he
-    | some x =>
-      simp only [List.filterMap_cons, List.length_cons]
-      rw [ih fun y hy => h y (by simp [hy])]
-
-theorem declBase_dimsFit (b : FBase) (h : FUniformB b) (sq : Nat) : DimsFitB (declBase b) sq := by
+theorem declBase_dimsFit (b : FBase) (sq : Nat) : DimsFitB (declBase b) sq := by
   have he : effShape (declBase b) sq = b.dims.map (·.2) := by simp [effShape, declBase]
   unfold DimsFitB
   rw [he]
-  rcases h with h | h
-  · left; simp only [declBase]; exact filterMap_fst_none _ h
-  · right; simp only [declBase, List.length_map]; exact filterMap_fst_some _ h
+  simp only [declBase, fitDims]
+  split
+  · right; assumption
+  · left; rfl
 
 mutual
-theorem declT_dimsFit : (t : FTmpl) → FUniformT t → (sq : Nat) → DimsFitT (declT t) sq
-  | .base b, h, sq => by
-    simp only [FUniformT] at h
-    simp only [declT, DimsFitT]; exact declBase_dimsFit b h sq
-  | .cont isSeq kw name gs kids, h, sq => by
-    simp only [FUniformT] at h
+theorem declT_dimsFit : (t : FTmpl) → (sq : Nat) → DimsFitT (declT t) sq
+  | .base b, sq => by
+    simp only [declT, DimsFitT]; exact declBase_dimsFit b sq
+  | .cont isSeq kw name gs kids, sq => by
     cases isSeq <;> simp only [declT, Bool.false_eq_true, if_false, if_true, DimsFitT]
-    · exact declL_dimsFit kids h sq
-    · exact declL_dimsFit kids h (sq + 1)
-  | .grid kw kwA kwM name gs arr maps, h, sq => by
-    simp only [FUniformT] at h
+    · exact declL_dimsFit kids sq
+    · exact declL_dimsFit kids (sq + 1)
+  | .grid kw kwA kwM name gs arr maps, sq => by
     simp only [declT, DimsFitT]
     intro b hb
     simp only [List.mem_cons, List.mem_map] at hb
-    rcases hb with rfl | ⟨m, hm, rfl⟩
-    · exact declBase_dimsFit arr h.1 sq
-    · exact declBase_dimsFit m (h.2 m hm) sq
-theorem declL_dimsFit : (ts : List FTmpl) → FUniformL ts → (sq : Nat) → DimsFitL (declL ts) sq
-  | [], _, _ => by simp [declL, DimsFitL]
-  | t :: ts, h, sq => by
-    simp only [FUniformL] at h
+    rcases hb with rfl | ⟨m, _, rfl⟩
+    · exact declBase_dimsFit arr sq
+    · exact declBase_dimsFit m sq
+theorem declL_dimsFit : (ts : List FTmpl) → (sq : Nat) → DimsFitL (declL ts) sq
+  | [], _ => by simp [declL, DimsFitL]
+  | t :: ts, sq => by
     simp only [declL, DimsFitL]
-    exact ⟨declT_dimsFit t h.1 sq, declL_dimsFit ts h.2 sq⟩
+    exact ⟨declT_dimsFit t sq, declL_dimsFit ts sq⟩
 end
 
-theorem declDs_dimsFit (d : FDataset) (h : FUniformDs d) : DimsFitDs (declDs d) := declL_dimsFit d.kids h 0
+theorem declDs_dimsFit (d : FDataset) : DimsFitDs (declDs d) := declL_dimsFit d.kids 0
 
-/-- `Dataset { Int32 a[x = 2][3]; } d;` — one dimension named, one anonymous -/
+/-- `Dataset { Int32 a[x = 2][3]; } d;` — one dimension named, one anonymous (legal DAP2) -/
 def partNamedWitness : FDataset :=
   ⟨"Dataset".toList, ['d'], [[' '], [' '], [' ']],
    [.base ⟨"Int32".toList, ['a'], [(some ['x'], 2), (none, 3)], []⟩]⟩
@@ -296,13 +259,15 @@ theorem partNamedWitness_wf : FWFds partNamedWitness := by
         exact b1
       hnodup := by decide }
 
-/-- the declared variable has shape (2, 3) and dims ('x',); printed and parsed again it has shape (2,): not the same tree -/
-theorem partNamedWitness_not_same : ¬ SameDs (declDs partNamedWitness) (normDs (declDs partNamedWitness)) := by
-  rintro ⟨_, h⟩
-  simp only [partNamedWitness, declDs, declL, declT, normDs, normL, normT] at h
-  cases h with
-  | cons h _ => cases h with
-    | base h => exact absurd h.shape (by decide)
+/-- what it declares for pydap: the shape (2, 3), no dimension names -/
+theorem partNamedWitness_decl :
+    declDs partNamedWitness = ⟨['d'], [.base ⟨['a'], ">i".toList, [2, 3], [], true⟩]⟩ := by
+  have n1 : quoteName ['d'] = ['d'] := by decide
+  have n2 : quoteName ['a'] = ['a'] := by decide
+  have t1 : declTy "Int32".toList = ">i".toList := by decide
+  simp only [partNamedWitness, declDs, declL, declT, declBase, n1, n2, t1, List.map_cons, List.map_nil,
+    List.filterMap_cons, List.filterMap_nil]
+  rfl
 
 /-! ### the boundary of the foreign-style domain: white space after a name -/
 
